@@ -92,6 +92,10 @@ func decCLI(in, out string) int {
 				z, err = x.Quo(y)
 			case "quoexact":
 				z, err = x.QuoExact(y)
+			case "quoint":
+				z, err = x.QuoInteger(y)
+			case "rem":
+				z, err = x.Rem(y)
 			case "safesub":
 				z, err = regenmath.SafeSubBalance(x, y)
 			case "cmp":
